@@ -52,6 +52,7 @@ type workload struct {
 	parallel bool
 	conc     int
 	listToo  bool // list the tasks (concurrent compile) before running
+	color    bool // Logger.Color on (the CLI default; the prefixed writer then keeps a colour per prefix)
 	lines    int  // expected minimum number of output lines (observation check)
 }
 
@@ -163,6 +164,21 @@ tasks:
     vars: {SV: {sh: 'printf sv'}}
     cmds: ["printf 'shared {{.SV}}\n'"]
 `}, calls: []string{"r1", "r2", "r3", "r4"}, lines: 4})
+	// prefixed output with colour on: many distinct prefixes printing at the same moment, through external programs
+	// (their output arrives on the copy goroutines of os/exec) and through builtins
+	{
+		var b strings.Builder
+		b.WriteString(hdr + "output: prefixed\ntasks:\n  all:\n    deps: [")
+		for i := 0; i < 12; i++ {
+			fmt.Fprintf(&b, "c%d, ", i)
+		}
+		b.WriteString("]\n")
+		for i := 0; i < 12; i++ {
+			fmt.Fprintf(&b, "  c%d:\n    prefix: 'pfx-%d'\n    cmds:\n      - /bin/echo c%d-1; /bin/echo c%d-2 >&2; printf 'c%d-3\\n'\n      - cmd: /bin/echo c%d-4\n", i, i, i, i, i, i)
+		}
+		ws = append(ws, workload{name: "output-prefixed-colour", files: map[string]string{"Taskfile.yml": b.String()}, calls: []string{"all"}, lines: 24, color: true})
+		ws = append(ws, workload{name: "output-prefixed-colour-parallel-roots", files: map[string]string{"Taskfile.yml": b.String()}, calls: []string{"c0", "c1", "c2", "c3", "c4", "c5"}, parallel: true, lines: 12, color: true})
+	}
 	// output wrappers with pipelines and background jobs inside one command
 	for _, mode := range []string{"group", "prefixed", "interleaved"} {
 		out := "output: " + mode + "\n"
@@ -330,7 +346,7 @@ func runWorkload(w workload, dir string, part *h.Partial) {
 	defer devnull.Close()
 	e := task.NewExecutor(
 		task.WithDir(dir), task.WithStdin(devnull), task.WithStdout(out), task.WithStderr(errw),
-		task.WithParallel(w.parallel), task.WithConcurrency(w.conc), task.WithVersionCheck(false), task.WithColor(false),
+		task.WithParallel(w.parallel), task.WithConcurrency(w.conc), task.WithVersionCheck(false), task.WithColor(w.color),
 		task.WithAssumeYes(true),
 	)
 	if err := e.Setup(); err != nil {
